@@ -15,6 +15,16 @@ CHECKS = {
         ref="DESIGN.md §6 P-C13"),
 }
 
+CHECKS["C03"] = dict(
+    technique="runtime monitoring: metamorphic relation monitor over groups of negation variants evaluated in one run",
+    text="For every LHS-shape x some/all x operator x RHS-class combination (exhaustive over the listed classes) and for random "
+         "clauses on random documents, 6-9 spellings of the negated/un-negated clause are evaluated together by the real "
+         "evaluator; the monitor asserts prefix-not == operator-not (all spellings), double negation == original, flip on "
+         "single comparable values, order inverses and the named-rule negation table.",
+    note="Trusts the generator's model-based decision that a query selects exactly one comparable value (plain key paths only). "
+         "Needs no reference semantics.",
+    ref="DESIGN.md §6 P-C03")
+
 PENDING = {}
 
 
